@@ -10,7 +10,8 @@
 (* those constants (30 digits, computed outside; trusted), this module     *)
 (* evaluates the sums in exact interval arithmetic over fractions, and a   *)
 (* value reported by the implementation must lie in the resulting interval *)
-(* widened by the rounding the implementation documents (tol, relative).   *)
+(* widened by the rounding the implementation documents (tol, relative to  *)
+(* the size of the true value).                                            *)
 (* A reported value outside the interval is wrong; an exception is a       *)
 (* refusal (recorded, judged by the harness).                              *)
 (***************************************************************************)
@@ -60,7 +61,9 @@ ClaimFails ==
     FoldSet(LAMBDA q, acc :
                LET cl == Tr.claims[q]
                    iv == MomentI(cl.a, cl.b, cl.c, cl.kind)
-                   slack == QAdd(QMul(QAbs(cl.value), cl.tol), cl.tol)
+                   \* the documented rounding keeps 20 significant digits: the slack is relative to the size of the true value
+                   \* (an absolute term would accept 0 for every tiny moment)
+                   slack == QMul(QMax({QAbs(iv.lo), QAbs(iv.hi)}), cl.tol)
                IN  IF QCmp(cl.value, QSub(iv.lo, slack)) >= 0 /\ QCmp(cl.value, QAdd(iv.hi, slack)) <= 0
                    THEN acc ELSE Append(acc, [claim |-> q, lo |-> iv.lo, hi |-> iv.hi]),
             <<>>, 1..Len(Tr.claims))
